@@ -19,8 +19,8 @@ from vlib.core import Stage, fail
 ID = "C10"
 MANIFEST = {
     "category": "exploration",
-    "text": "Generated-input search: package tables (1-5 package keys mapped to well-formed expressions that may themselves contain time conditions and packages, or mapped to nothing / absent) x condition and AHB expressions using those packages repeatedly, adjacently, with and without repeatability, plus time conditions. The tree from parse_expression_including_unresolved_subexpressions(resolve_packages=True, replace_time_conditions=True) - and from expand_packages / expand_time_conditions applied separately - must equal the tree of the textually substituted string parsed without resolution (exact equality; equality modulo regrouping inside one-operator runs is accepted and counted); a package without expression must abort with NotImplementedError; no coroutine may be left in the tree; exactly one level is expanded. Stage many-packages (enumerated): 25-32 (thorough: 12-120) package occurrences with a suspending resolver, resolved three times on new event loops, compared with the tree of the substituted text. Stage no-packages: expressions without any package resolved with resolve_packages=True / handed to expand_packages while no, another version's, or a matching package resolver is registered; the tree must equal the plain parse. Two more resolver kinds: the shipped JsonFilePackageResolver fed with the dict layout and with the list layout of the package table (a package without expression written as null).",
-    "note": "Trusted: ref.subst_packages / subst_time (regular-expression substitution written from the statement), the plain parsers as judged by C01/C02. Bounded: <= 8/14 atoms per expression, <= 5 packages. Process configuration by shard (vlib/sut.py; recorded in replay files): plain / parse caches preheated beyond their size / warnings attributed to ahbicht raised as errors / logging fully enabled with every record rendered; one event loop per process or a new one per call; five process time zones; the hash seed is the shard number; namesakes of ahbicht's marshmallow schema classes are registered.",
+    "text": "Generated-input search: package tables (1-5 package keys mapped to well-formed expressions that may themselves contain time conditions and packages, or mapped to nothing / absent) x condition and AHB expressions using those packages repeatedly, adjacently, with and without repeatability, plus time conditions. The tree from parse_expression_including_unresolved_subexpressions(resolve_packages=True, replace_time_conditions=True) - and from expand_packages / expand_time_conditions applied separately - must equal the tree of the textually substituted string parsed without resolution (exact equality; equality modulo regrouping inside one-operator runs is accepted and counted); a package without expression must abort with NotImplementedError; no coroutine may be left in the tree; exactly one level is expanded. Stage many-packages (enumerated): 25-32 (thorough: 12-120) package occurrences with a suspending resolver, resolved three times on new event loops, compared with the tree of the substituted text. Stage no-packages: expressions without any package resolved with resolve_packages=True / handed to expand_packages while no, another version's, or a matching package resolver is registered; the tree must equal the plain parse. Two more resolver kinds: the shipped JsonFilePackageResolver fed with the dict layout and with the list layout of the package table (a package without expression written as null). Two more situations: the only package resolver that is registered belongs to another format version / another format than the evaluatable data - then every package is unknown and the resolution must abort with NotImplementedError.",
+    "note": "Trusted: ref.subst_packages / subst_time (regular-expression substitution written from the statement), the plain parsers as judged by C01/C02. Bounded: <= 8/14 atoms per expression, <= 5 packages. Process configuration by shard (vlib/sut.py; recorded in replay files): plain / parse caches preheated beyond their size / warnings attributed to ahbicht raised as errors / logging fully enabled with every record rendered; one event loop per process or a new one per call; five process time zones; the hash seed is the shard number; namesakes of ahbicht's marshmallow schema classes are registered. Every registry of evaluators / providers / resolvers that the harness builds (sut.configure) also holds one of each kind that names no EDIFACT format and no format version; these must never be asked.",
     "technique": "property-based testing with a differential oracle (resolve(s) vs parse(textual substitution of s))",
 }
 LEVEL = "exploration"
@@ -139,6 +139,21 @@ def check(case):
             fail("resolver-construction", f"JsonFilePackageResolver could not be built from the {case['resolver'][9:]} layout of the "
                  f"package table {table!r}: {built!r}")  # fmt: skip
         sut.configure([built.value])
+    elif case.get("resolver") in ("other-version-only", "other-format-only"):
+        # the only package resolver there is belongs to another format version / another format than the evaluatable
+        # data: for these data every package is unknown, whatever that resolver's table says
+        from ahbicht.expressions.package_expansion import DictBasedPackageResolver
+        from efoli import EdifactFormat, EdifactFormatVersion
+
+        foreign = DictBasedPackageResolver({k: v for k, v in table.items() if v is not None} or {"1P": "[1]"})
+        if case["resolver"] == "other-version-only":
+            foreign.edifact_format = sut.FMT
+            foreign.edifact_format_version = next(v for v in (EdifactFormatVersion.FV2304, EdifactFormatVersion.FV2404) if v != sut.VER)
+        else:
+            foreign.edifact_format = next(f for f in (EdifactFormat.MSCONS, EdifactFormat.UTILMD) if f != sut.FMT)
+            foreign.edifact_format_version = sut.VER
+        sut.configure([foreign], bystanders=False)
+        missing = list(used)
     elif case.get("resolver") == "formatless":
         # evaluators as ahbicht's own factory builds them when no format is given, behind a single-set provider
         sut.setup_hardcoded(sut.make_cer(packages={k: v for k, v in table.items() if v is not None}), formatless=True)
@@ -277,7 +292,8 @@ def strategy(tier):
             text = gen.render(draw, ast)
         used = sorted({a[1] for p in parts if p[1] is not None for a in ref.atoms_of(p[1]) if a[0] == "pkg"})
         return {"table": table, "parts": parts, "s": text, "is_ahb": is_ahb, "used": used,
-                "resolver": draw(st.sampled_from(["dict", "dict", "cer", "formatless", "jsonfile-dict", "jsonfile-list"]))}
+                "resolver": draw(st.sampled_from(["dict", "dict", "cer", "formatless", "jsonfile-dict", "jsonfile-list", "dict",
+                                                   "other-version-only", "other-format-only"]))}
 
     return build()
 
